@@ -141,12 +141,23 @@ def progToks (c ap : Bool) (prog : List (Option Node)) : List Tok := stmtsToks c
 /-! ### the fragment (per print mode: the statement lists of normal mode must not have a statement, other than
 the first, that starts with `-`, `+`, `^`, `++`, `--` — recorded class "statement-starts-with-prefix-operator") -/
 
-/-- `func(a, b, ..)`: identifiers, the last one may be `..` (then, and only then, the function is variadic) -/
-def paramsOK (variadic : Bool) : List (Option Node) → Bool
-  | [] => !variadic
-  | [some (.ident t)] => if t.type == .DOTDOT then variadic else t.type == .IDENT && !variadic
-  | some (.ident t) :: rest => t.type == .IDENT && paramsOK variadic rest
+/-- a parameter of `func(a, b, ..)`: an identifier or `..` -/
+def isParam : Option Node → Bool
+  | some (.ident t) => t.type == .IDENT || t.type == .DOTDOT
   | _ => false
+
+def isDotDot : Option Node → Bool
+  | some (.ident t) => t.type == .DOTDOT
+  | _ => false
+
+/-- is the last parameter `..` (`d` for the empty list) -/
+def lastDotDot (d : Bool) : List (Option Node) → Bool
+  | [] => d
+  | x :: rest => lastDotDot (isDotDot x) rest
+
+/-- the parameters are identifiers or `..`, and the function is variadic iff the last one is `..` -/
+def paramsOK (variadic : Bool) (params : List (Option Node)) : Bool :=
+  params.all isParam && variadic == lastDotDot false params
 
 mutual
 def fragN (c ap : Bool) : Node → Bool
